@@ -420,11 +420,91 @@ structure LoopShape where
   returnsX : Bool
   /-- branch order of the `bk_update_type` chain -/
   branches : List Update
+  /-- number of `break` / `continue` / `return` / `raise` statements anywhere inside the loop (the tolerance test is the
+  only way out before `num_iters` passes) -/
+  exits : Nat
+  /-- number of loops (`for` / `while`, nested ones included) in `cg` -/
+  loops : Nat
 deriving DecidableEq, Repr
 
 def cgLoopShape : LoopShape :=
   { rangeNumIters := true, breakAfter := 5, breakTestOnRrNew := true, returnsX := true,
-    branches := [.FR, .PRP, .DY, .BAN] }
+    branches := [.FR, .PRP, .DY, .BAN], exits := 1, loops := 1 }
+
+/-! ## State that outlives a call (phase 3)
+
+The blocks are modelled as pure functions of their arguments.  That is only faithful when a call leaves nothing behind on
+the instance, its class or its module.  The translator lists every such write (`Gen.C19.dc_state_writes`); a block whose
+calls have exactly the listed effects is history independent when the list is empty (`dc_history_independent`). -/
+
+/-- one syntactic write to state that outlives the call (or a memoising decorator) -/
+structure StateWrite where
+  cls : String
+  func : String
+  scope : String
+  target : String
+  how : String
+deriving DecidableEq, Repr
+
+/-- entry points that must be among the scanned functions -/
+def dcRequiredReach : List String :=
+  ["MRILogLikelihood:MRILogLikelihood.forward", "RIM:RIM.forward", "ConjGrad:ConjGrad.forward", "ConjGrad:ConjGrad.cg",
+   "ConjGrad:ConjGrad.B_op", "ConjGrad:ConjGrad._A_star_A_op", "ConjGrad:ConjGrad._A_star_op",
+   "ConjGradNet:ConjGradNet.forward", "RIMBlock:RIMBlock.forward", "CIRIM:CIRIM.forward",
+   "EndToEndVarNetBlock:EndToEndVarNetBlock.forward", "RecurrentVarNetBlock:RecurrentVarNetBlock.forward",
+   "VSharpNet:VSharpNet.forward", "VSharpNet3D:VSharpNet3D.forward", "JointICNet:JointICNet.forward",
+   "IterDualNet:IterDualNet.forward", "LPDNet:LPDNet.forward", "CrossDomainNetwork:CrossDomainNetwork.forward",
+   "MRIVarSplitNet:MRIVarSplitNet.forward", "KIKINet:KIKINet.forward",
+   "MRIModelEngine:MRIModelEngine._forward_operator", "MRIModelEngine:MRIModelEngine._backward_operator",
+   "SSLMRIModelEngine:SSLMRIModelEngine._do_iteration", "JSSLMRIModelEngine:JSSLMRIModelEngine._do_iteration",
+   "VSharpNetEngine:VSharpNetEngine.forward_function", "VSharpNet3DEngine:VSharpNet3DEngine.forward_function",
+   "VSharpNetSSLEngine:VSharpNetSSLEngine._do_iteration", "VSharpNetJSSLEngine:VSharpNetJSSLEngine._do_iteration",
+   "transforms:expand_operator", "transforms:reduce_operator", "transforms:complex_multiplication",
+   "transforms:apply_mask", "transforms:fft2", "transforms:ifft2"]
+
+/-- nothing is written, and every entry point was scanned -/
+def stateWritesOk (ws : List StateWrite) (reach : List String) : Bool :=
+  ws.isEmpty && dcRequiredReach.all fun r => reach.contains r
+
+/-- a block *instance*: `out` is what a call answers given the instance state and the arguments, `upd` what the call
+leaves behind -/
+structure Stateful (σ : Type u) (ι : Type v) (ο : Type w) where
+  out : σ → ι → ο
+  upd : σ → ι → σ
+
+/-- the instance state after a call history -/
+def Stateful.after {σ : Type u} {ι : Type v} {ο : Type w} (b : Stateful σ ι ο) (s : σ) (hist : List ι) : σ :=
+  hist.foldl b.upd s
+
+/-- the answer of a call made after a history of earlier calls on the same instance -/
+def Stateful.call {σ : Type u} {ι : Type v} {ο : Type w} (b : Stateful σ ι ο) (s : σ) (hist : List ι) (i : ι) : ο :=
+  b.out (b.after s hist) i
+
+/-- the joint effect of the listed writes (`eff w` = what write `w` does to the state) -/
+def applyWrites {σ : Type u} {ι : Type v} (eff : StateWrite → σ → ι → σ) (ws : List StateWrite) (s : σ) (i : ι) : σ :=
+  ws.foldl (fun t w => eff w t i) s
+
+/-! ### `ConjGradNet`, the caller of `ConjGrad` outside the anchored file -/
+
+/-- every `self.conj_grad(…)` call of `ConjGradNet.forward`, arguments in the order of `ConjGrad.forward`'s signature
+`(masked_kspace, sensitivity_map, sampling_mask, z, lambd)` -/
+def conjGradNetCall : List String := ["masked_kspace", "sensitivity_map", "sampling_mask", "z", "self.mu"]
+def conjGradNetCalls : List (List String) := [conjGradNetCall, conjGradNetCall]
+/-- `ConjGrad.__init__(forward_operator, backward_operator, num_iters, tol, bk_update_type)` and what `ConjGradNet` passes -/
+def conjGradCtorParams : List String := ["forward_operator", "backward_operator", "num_iters", "tol", "bk_update_type"]
+def conjGradNetCtorArgs : List String := ["forward_operator", "backward_operator", "cg_iters", "cg_tol", "cg_param_update_type"]
+/-- at least one call, and every call passes the five arguments in the right places -/
+def conjGradNetCallsOk (cs : List (List String)) : Bool := !cs.isEmpty && cs.all fun c => c == conjGradNetCall
+
+/-- a memo keyed by the *identity* of one argument (the shape of seeded regression C19-5): arguments are
+`(object id, mask, data)`, the answer should be `mask * data`; the data term is cached under the object id -/
+def memoBlock : Stateful (Option (Int × Int)) (Int × Int × Int) Int where
+  out := fun s a => match s with
+    | some (k, v) => if k = a.1 then v else a.2.1 * a.2.2
+    | none => a.2.1 * a.2.2
+  upd := fun s a => match s with
+    | some (k, v) => if k = a.1 then some (k, v) else some (a.1, a.2.1 * a.2.2)
+    | none => some (a.1, a.2.1 * a.2.2)
 
 /-! ## Exact arithmetic: rationals and Gaussian rationals -/
 
